@@ -40,7 +40,7 @@ Section Ops.
 
   Lemma persist_spec s create sys fv sv ch e0 :
     let e1 := persist sch s create sys fv sv ch e0 in
-    (ent_nobool e0 -> ent_nobool e1) /\
+    (ent_nobool e0 -> (is_child sch s = true -> al_get s (e_c e0) <> None \/ e_c e0 = []) -> ent_nobool e1) /\
     (forall f, (forall dR, find_store sch (root_of sch s) = Some dR -> ~ In f (sd_sets dR)) -> ent_set e1 f = ent_set e0 f) /\
     (forall s1, s1 <> s -> al_get s1 (e_c e1) = al_get s1 (e_c e0)) /\
     (is_child sch s = true -> al_get s (e_c e1) <> None) /\
@@ -48,22 +48,28 @@ Section Ops.
   Proof.
     intros e1. unfold persist in e1. unfold is_child, root_of.
     destruct (find_store sch s) as [d|] eqn:Ef.
-    2:{ subst e1. refine (conj (fun h => h) (conj (fun _ _ => eq_refl) (conj (fun _ _ => eq_refl) (conj _ (fun _ => eq_refl))))). discriminate. }
+    2:{ subst e1. refine (conj (fun h _ => h) (conj (fun _ _ => eq_refl) (conj (fun _ _ => eq_refl) (conj _ (fun _ => eq_refl))))). discriminate. }
     destruct (sd_parent d) as [p|] eqn:Ep.
     - destruct (find_store sch p) as [pd|] eqn:Efp.
       2:{ exfalso. exact (wp_child_parent sch W s d p Ef Ep Efp). }
       subst e1. cbn [e_f e_c e_s]. refine (conj _ (conj _ (conj _ (conj _ _)))).
-      + intros [A B]. split; cbn [e_f e_c].
+      + intros [[A B] C] Hk. split; [split|]; cbn [e_f e_c].
         * destruct (create && sys); [apply nobool_put_sys|]; apply persist_fields_nobool; exact A.
         * intros s1 cd Hg. rewrite al_get_put in Hg. destruct (str_eqb s s1) eqn:E; [|eapply B; exact Hg].
           inversion Hg; subst cd. apply persist_fields_nobool. destruct (al_get s (e_c e0)) as [x|] eqn:Ex; [eapply B; exact Ex|].
           intros f b _. cbn. discriminate.
+        * intros c1 c2 H1 H2. cbn [e_c] in H1, H2. rewrite al_get_put in H1, H2.
+          destruct (str_eqb s c1) eqn:E1; destruct (str_eqb s c2) eqn:E2.
+          -- apply str_eqb_eq in E1, E2. congruence.
+          -- apply str_eqb_eq in E1. subst c1. destruct (Hk eq_refl) as [K|K]; [exact (C s c2 K H2) | rewrite K in H2; cbn in H2; congruence].
+          -- apply str_eqb_eq in E2. subst c2. destruct (Hk eq_refl) as [K|K]; [exact (C c1 s H1 K) | rewrite K in H1; cbn in H1; congruence].
+          -- exact (C c1 c2 H1 H2).
       + intros f Hn. unfold ent_set. cbn [e_s]. rewrite persist_sets_other; [reflexivity|]. apply Hn. reflexivity.
       + intros s1 Hne. rewrite al_get_put. rewrite (str_eqb_false_ne s s1) by congruence. reflexivity.
       + intros _. rewrite al_get_put, str_eqb_refl. discriminate.
       + discriminate.
     - subst e1. cbn [e_f e_c e_s]. refine (conj _ (conj _ (conj _ (conj _ _)))).
-      + intros [A B]. split; cbn [e_f e_c]; [|exact B].
+      + intros [[A B] C] _. split; [split|]; cbn [e_f e_c]; [|exact B|exact C].
         destruct (create && sys); [apply nobool_put_sys|]; apply persist_fields_nobool; exact A.
       + intros f Hn. unfold ent_set. cbn [e_s]. rewrite persist_sets_other; [reflexivity|]. apply Hn. exact Ef.
       + reflexivity.
@@ -72,7 +78,7 @@ Section Ops.
   Qed.
 
   Lemma ent_nobool_empty : ent_nobool ent_empty.
-  Proof. split; [intros f b _; cbn; discriminate | intros s1 cd H; cbn in H; discriminate]. Qed.
+  Proof. split; [split; [intros f b _; cbn; discriminate | intros s1 cd H; cbn in H; discriminate] | intros c1 c2 H; cbn in H; congruence]. Qed.
 
   (* ---- the state right after PersistEntity satisfies Mid ---- *)
   Section AfterPersist.
@@ -83,9 +89,11 @@ Section Ops.
     Hypothesis HR : isroot sch R.
     Hypothesis HInv0 : Inv st0.
     Let e0 := match get_ent st0 R i with Some e => e | None => ent_empty end.
-    Hypothesis HEb : forall s f0 b nl, In (CFkIndex f0 R b nl) (cons_of sch s) -> ent_set e1 b = ent_set e0 b.
-    Hypothesis HEl : forall lf os of_, In (lf, os, of_) (links_of sch R) -> ent_set e1 lf = ent_set e0 lf.
+    Hypothesis HEb : forall s f0 t b nl, In (CFkIndex f0 t b nl) (cons_of sch s) -> root_of sch t = R -> ent_set e1 b = ent_set e0 b.
+    Hypothesis HEl : forall s lf os of_, In (lf, os, of_) (links_of sch s) -> root_of sch s = R -> ent_set e1 lf = ent_set e0 lf.
     Let st1 := set_ent st0 R i e1.
+    (* PersistEntity keeps the entity in every store of the family it lives in *)
+    Hypothesis HPk : forall s, root_of sch s = R -> present sch st0 s i = true -> present sch st1 s i = true.
 
     Lemma eset0 f : eset st0 R i f = ent_set e0 f.
     Proof. unfold eset, e0. destruct (get_ent st0 R i); reflexivity. Qed.
@@ -99,18 +107,20 @@ Section Ops.
     Lemma eset1_self f : eset st1 R i f = ent_set e1 f.
     Proof. unfold eset, st1. rewrite get_ent_set_ent, !str_eqb_refl. reflexivity. Qed.
 
-    Lemma eset1_backref s f0 t b nl ti : In (CFkIndex f0 t b nl) (cons_of sch s) -> eset st1 t ti b = eset st0 t ti b.
+    Lemma eset1_backref s f0 t b nl ti : In (CFkIndex f0 t b nl) (cons_of sch s) ->
+      eset st1 (root_of sch t) ti b = eset st0 (root_of sch t) ti b.
     Proof.
-      intros Hin. destruct (str_eq_dec t R) as [->|Hne]; [destruct (str_eq_dec ti i) as [->|Hne]|].
-      - rewrite eset1_self, eset0. eapply HEb; eauto.
+      intros Hin. destruct (str_eq_dec (root_of sch t) R) as [E|Hne]; [destruct (str_eq_dec ti i) as [->|Hne]|].
+      - rewrite E, eset1_self, eset0. eapply HEb; eauto.
       - apply eset1_other. intros [_ A]. congruence.
       - apply eset1_other. intros [A _]. congruence.
     Qed.
 
-    Lemma eset1_link s lf os of_ x : In (lf, os, of_) (links_of sch s) -> eset st1 s x lf = eset st0 s x lf.
+    Lemma eset1_link s lf os of_ x : In (lf, os, of_) (links_of sch s) ->
+      eset st1 (root_of sch s) x lf = eset st0 (root_of sch s) x lf.
     Proof.
-      intros Hin. destruct (str_eq_dec s R) as [->|Hne]; [destruct (str_eq_dec x i) as [->|Hne]|].
-      - rewrite eset1_self, eset0. eapply HEl; eauto.
+      intros Hin. destruct (str_eq_dec (root_of sch s) R) as [E|Hne]; [destruct (str_eq_dec x i) as [->|Hne]|].
+      - rewrite E, eset1_self, eset0. eapply HEl; eauto.
       - apply eset1_other. intros [_ A]. congruence.
       - apply eset1_other. intros [A _]. congruence.
     Qed.
@@ -121,6 +131,14 @@ Section Ops.
       intros Hn. unfold present, get_field, st1. rewrite get_ent_set_ent.
       destruct (str_eqb R (root_of sch s) && str_eqb i j) eqn:Eb; [|split; reflexivity].
       apply andb_prop in Eb as [E1 E2]. apply str_eqb_eq in E1, E2. exfalso. apply Hn. split; congruence.
+    Qed.
+
+    Lemma present1_keep s j : present sch st0 s j = true -> present sch st1 s j = true.
+    Proof.
+      intros Hp. destruct (str_eq_dec (root_of sch s) R) as [E|Hne]; [destruct (str_eq_dec j i) as [->|Hne]|].
+      - apply HPk; assumption.
+      - destruct (present1_other s j) as [P _]; [intros [_ A]; congruence|]. rewrite P. exact Hp.
+      - destruct (present1_other s j) as [P _]; [intros [A _]; congruence|]. rewrite P. exact Hp.
     Qed.
 
     Lemma Mid_after_persist : Mid st0 R i st1.
@@ -134,65 +152,81 @@ Section Ops.
         + left. destruct (present1_other s x) as [P1 P2]; [intros [_ Q]; congruence|]. unfold NoTraceInv.fbytes in *. rewrite P1, P2. split; assumption.
         + left. destruct (present1_other s x) as [P1 P2]; [intros [Q _]; congruence|]. unfold NoTraceInv.fbytes in *. rewrite P1, P2. split; assumption.
       - intros r f v x Hx. change (sbucket st1 r f v) with (sbucket st0 r f v) in Hx.
-        destruct (HS r f v x Hx) as [A B]. split; [exact A|].
+        destruct (HS r f v x Hx) as [s0 [A0 [A [P B]]]]. exists s0. split; [exact A0|]. split; [exact A|].
         destruct (str_eq_dec r R) as [->|Hne]; [destruct (str_eq_dec x i) as [->|Hne]|].
-        + right. repeat split. exact B.
-        + left. rewrite eset1_other; [exact B | intros [_ Q]; congruence].
-        + left. rewrite eset1_other; [exact B | intros [Q _]; congruence].
+        + right. repeat split; assumption.
+        + left. destruct (present1_other s0 x) as [P1 _]; [intros [_ Q]; congruence|]. rewrite P1. split; [exact P|].
+          rewrite eset1_other; [exact B | intros [_ Q]; congruence].
+        + left. destruct (present1_other s0 x) as [P1 _]; [intros [Q _]; congruence|]. rewrite P1. split; [exact P|].
+          rewrite eset1_other; [exact B | intros [Q _]; congruence].
       - intros t b s f nl ti x Hin Hx. rewrite (eset1_backref s f t b nl ti Hin) in Hx.
         destruct (HB s f t b nl ti x Hin Hx) as [A [B C]]. split; [exact A|].
-        destruct (wp_cons_root sch W s _ Hin) as [_ Hrs]. cbn in Hrs.
-        destruct (str_eq_dec s R) as [->|Hne]; [destruct (str_eq_dec x i) as [->|Hne]|].
+        destruct (str_eq_dec (root_of sch s) R) as [E|Hne]; [destruct (str_eq_dec x i) as [->|Hne]|].
         + right. repeat split; assumption.
-        + left. destruct (present1_other R x) as [P1 P2]; [intros [_ Q]; congruence|]. unfold NoTraceInv.fbytes in *. rewrite P1, P2. split; assumption.
+        + left. destruct (present1_other s x) as [P1 P2]; [intros [_ Q]; congruence|]. unfold NoTraceInv.fbytes in *. rewrite P1, P2. split; assumption.
         + left. destruct (present1_other s x) as [P1 P2]; [intros [Q _]; congruence|]. unfold NoTraceInv.fbytes in *. rewrite P1, P2. split; assumption.
       - intros s f t b nl y v Hin Hg Hp Hf Hn.
-        destruct (wp_cons_root sch W s _ Hin) as [_ Hrs]. cbn in Hrs.
-        destruct (present1_other s y) as [P1 P2]; [intros [Q1 Q2]; apply Hg; right; split; congruence|].
+        destruct (present1_other s y) as [P1 P2]; [intros [Q1 Q2]; apply Hg; right; split; assumption|].
         rewrite P1 in Hp. rewrite P2 in Hf. rewrite (eset1_backref s f t b nl v Hin).
-        apply (HF s f t b nl y v Hin (fun q => q) Hp Hf Hn).
+        destruct (HF s f t b nl y v Hin (fun q => q) Hp Hf Hn) as [A B]. split; [exact A | apply present1_keep; exact B].
       - intros s f t nl y v Hin Hg Hp Hf Hn.
-        destruct (wp_cons_root sch W s _ Hin) as [_ Hrs]. cbn in Hrs.
-        destruct (present1_other s y) as [P1 P2]; [intros [Q1 Q2]; apply Hg; right; split; congruence|].
-        rewrite P1 in Hp. rewrite P2 in Hf. pose proof (HC s f t nl y v Hin (fun q => q) Hp Hf Hn) as Hx.
-        unfold st1. rewrite get_ent_set_ent. destruct (str_eqb R t && str_eqb i v); [discriminate | exact Hx].
+        destruct (present1_other s y) as [P1 P2]; [intros [Q1 Q2]; apply Hg; right; split; assumption|].
+        rewrite P1 in Hp. rewrite P2 in Hf. apply present1_keep. apply (HC s f t nl y v Hin (fun q => q) Hp Hf Hn).
       - intros s lf os of_ x t Hin _ Ht. rewrite (eset1_link s lf os of_ x Hin) in Ht.
-        pose proof (HL s lf os of_ x t Hin (fun q => q) Ht) as Hx.
-        rewrite (eset1_link os of_ s lf t (wp_link_sym sch W _ _ _ _ Hin)). exact Hx.
+        destruct (HL s lf os of_ x t Hin (fun q => q) Ht) as [Hx [Hpx Hpt]].
+        rewrite (eset1_link os of_ s lf t (wp_link_sym sch W _ _ _ _ Hin)). split; [exact Hx|].
+        split; apply present1_keep; assumption.
       - intros s f t b nl Hin Hrs. right. intros v Hv. rewrite (eset1_backref s f t b nl v Hin). exact Hv.
-      - intros r j Hj. unfold st1. rewrite get_ent_set_ent. destruct (str_eqb R r && str_eqb i j); [discriminate | exact Hj].
+      - intros s j Hj. apply present1_keep. exact Hj.
     Qed.
   End AfterPersist.
 
   (* ---- from Mid back to the invariant once every hook of the chain has run ---- *)
+  Definition cons_field (k : cons) : option name :=
+    match k with CUnique f _ => Some f | CFkIndex f _ _ _ => Some f | CFkCons f _ _ => Some f | _ => None end.
+
   Lemma Mid_to_Inv st0 R i st2 (chs : list name) :
     Inv st0 -> Mid st0 R i st2 -> FieldsStr st2 -> In R chs -> isroot sch R ->
     (forall s', In s' chs -> forall k, In k (cons_of sch s') -> DoneK sch i st2 s' k) ->
-    (forall s1 f nl, root_of sch s1 = R -> In (CUnique f nl) (cons_of sch s1) -> ~ In s1 chs ->
-        present sch st0 s1 i = true -> present sch st2 s1 i = true /\ fbytes st2 s1 i f = fbytes st0 s1 i f) ->
+    (* the stores of the family the operation did not go through: their data of entity i is untouched *)
+    (forall s1 k f, root_of sch s1 = R -> In k (cons_of sch s1) -> cons_field k = Some f -> ~ In s1 chs ->
+        present sch st2 s1 i = present sch st0 s1 i /\ get_field sch st2 s1 i f = get_field sch st0 s1 i f) ->
+    (* every store of the family the entity lived in before the write is one the operation goes through *)
+    (forall s1, root_of sch s1 = R -> present sch st0 s1 i = true -> In s1 chs) ->
     Inv st2.
   Proof.
-    intros HInv0 [MU [MS [MB [HF [HC [HL _]]]]]] HFS HRin [HRc HRr] HD Hother. split; [|exact HFS].
+    intros HInv0 [MU [MS [MB [HF [HC [HL [MP MPres]]]]]]] HFS HRin [HRc HRr] HD Hother Hown. split; [|exact HFS].
+    pose proof HInv0 as [[_ [_ [_ [HF0 [HC0 _]]]]] HFS0].
     refine (conj _ (conj _ (conj _ (conj _ (conj _ _))))).
     - intros r f v x Hx. destruct (MU r f v x Hx) as [s [nl [A [B [C [[D E]|[-> [-> [D E]]]]]]]]].
       + exists s, nl. repeat split; assumption.
       + destruct (in_dec str_eq_dec s chs) as [Hin|Hnin].
         * pose proof (HD s Hin _ B) as Hd. cbn [DoneK] in Hd. rewrite A in Hd. exact (Hd v i Hx).
-        * destruct (Hother s f nl A B Hnin D) as [P1 P2]. exists s, nl. repeat split; try assumption. congruence.
-    - intros r f v x Hx. destruct (MS r f v x Hx) as [A [B|[-> [-> B]]]]; [split; assumption|].
-      pose proof (HD R HRin _ A) as Hd. cbn [DoneK] in Hd. exact (Hd v i Hx).
-    - intros s f t b nl ti x Hin Hx. destruct (MB t b s f nl ti x Hin Hx) as [A [[B C]|[-> [-> [B C]]]]]; [repeat split; assumption|].
-      pose proof (HD R HRin _ Hin) as [Hd _]. exact (Hd R f nl ti i Hin Hx).
+        * destruct (Hother s _ f A B eq_refl Hnin) as [P1 P2]. exists s, nl. unfold NoTraceInv.fbytes in *.
+          rewrite P1, P2. repeat split; assumption.
+    - intros r f v x Hx. destruct (MS r f v x Hx) as [s1 [A1 [B1 [[P C]|[-> [-> [P C]]]]]]].
+      + exists s1. repeat split; assumption.
+      + pose proof (HD s1 (Hown s1 A1 P) _ B1) as Hd. cbn [DoneK] in Hd. rewrite A1 in Hd. exact (Hd v i Hx).
+    - intros s f t b nl ti x Hin Hx. destruct (MB t b s f nl ti x Hin Hx) as [A [[B C]|[E [-> [B C]]]]]; [repeat split; assumption|].
+      destruct (in_dec str_eq_dec s chs) as [Hin'|Hnin].
+      + pose proof (HD s Hin' _ Hin) as [Hd _]. exact (Hd s f nl ti i Hin Hx).
+      + destruct (Hother s _ f E Hin eq_refl Hnin) as [P1 P2]. unfold NoTraceInv.fbytes in *. rewrite P1, P2. repeat split; assumption.
     - intros s f t b nl y v Hin _ Hp Hf Hn.
-      destruct (wp_cons_root sch W s _ Hin) as [_ Hrs]. cbn in Hrs.
-      destruct (str_eq_dec s R) as [->|Hne]; [destruct (str_eq_dec y i) as [->|Hne]|].
-      + pose proof (HD R HRin _ Hin) as [_ Hd]. exact (Hd v Hf Hn).
-      + apply (HF R f t b nl y v Hin); try assumption. intros [[]|[_ Q]]. congruence.
+      destruct (str_eq_dec (root_of sch s) R) as [E|Hne]; [destruct (str_eq_dec y i) as [->|Hne]|].
+      + destruct (in_dec str_eq_dec s chs) as [Hin'|Hnin].
+        * pose proof (HD s Hin' _ Hin) as [_ Hd]. exact (Hd v Hf Hn).
+        * destruct (MP s f t b nl Hin E) as [P|P]; [exact (P v Hf Hn)|].
+          destruct (Hother s _ f E Hin eq_refl Hnin) as [P1 P2]. rewrite P1 in Hp. rewrite P2 in Hf.
+          destruct (HF0 s f t b nl i v Hin (fun q => q) Hp Hf Hn) as [Q1 Q2]. split; [apply P; exact Q1 | apply MPres; exact Q2].
+      + apply (HF s f t b nl y v Hin); try assumption. intros [[]|[_ Q]]. congruence.
       + apply (HF s f t b nl y v Hin); try assumption. intros [[]|[Q _]]. congruence.
     - intros s f t nl y v Hin _ Hp Hf Hn.
-      destruct (str_eq_dec s R) as [->|Hne]; [destruct (str_eq_dec y i) as [->|Hne]|].
-      + pose proof (HD R HRin _ Hin) as Hd. cbn [DoneK] in Hd. exact (Hd v Hf Hn).
-      + apply (HC R f t nl y v Hin); try assumption. intros [[]|[_ Q]]. congruence.
+      destruct (str_eq_dec (root_of sch s) R) as [E|Hne]; [destruct (str_eq_dec y i) as [->|Hne]|].
+      + destruct (in_dec str_eq_dec s chs) as [Hin'|Hnin].
+        * pose proof (HD s Hin' _ Hin) as Hd. cbn [DoneK] in Hd. exact (Hd v Hf Hn).
+        * destruct (Hother s _ f E Hin eq_refl Hnin) as [P1 P2]. rewrite P1 in Hp. rewrite P2 in Hf.
+          apply MPres. apply (HC0 s f t nl i v Hin (fun q => q) Hp Hf Hn).
+      + apply (HC s f t nl y v Hin); try assumption. intros [[]|[_ Q]]. congruence.
       + apply (HC s f t nl y v Hin); try assumption. intros [[]|[Q _]]. congruence.
     - exact HL.
   Qed.
@@ -201,7 +235,7 @@ Section Ops.
   Proof.
     intros Hfc H r j e' He'. specialize (Hfc r j). rewrite He' in Hfc. unfold ent_fc_eq in Hfc.
     destruct (get_ent st r j) as [e|] eqn:E; [|contradiction]. destruct Hfc as [A B].
-    destruct (H r j e E) as [C D]. split; [rewrite A; exact C | rewrite B; exact D].
+    destruct (H r j e E) as [[C D] E1]. split; [split; [rewrite A; exact C | rewrite B; exact D] | unfold ec_one; rewrite B; exact E1].
   Qed.
 
   Lemma FieldsStr_set_ent st r i e : FieldsStr st -> ent_nobool e -> FieldsStr (set_ent st r i e).
@@ -253,19 +287,27 @@ Section Ops.
     Inv st0 ->
     (create = false -> present sch st0 s i = true) ->
     (create = true -> get_ent st0 R i = None) ->
+    (* the entity lives in no child store other than the one the operation goes through *)
+    (forall s1, root_of sch s1 = R -> is_child sch s1 = true -> present sch st0 s1 i = true -> s1 = s) ->
     chain_svs_ok sch st0 i create csys (chain sch s) svss ->
     after_chain sch (set_ent st0 R i (persist sch s create sys fv sv ch e0)) create csys i (chain sch s) svss = Ok st2 ->
     Inv st2.
   Proof.
-    intros R e0 HInv0 Hupd Hcre Hsv H.
+    intros R e0 HInv0 Hupd Hcre Hexcl Hsv H.
     assert (HR : isroot sch R) by (split; [apply (wp_root_nochild sch W) | apply (wp_roots sch W)]).
     destruct (persist_spec s create sys fv sv ch e0) as [Pa [Pb [Pc [Pd Pe]]]].
     set (e1 := persist sch s create sys fv sv ch e0) in *. set (st1 := set_ent st0 R i e1) in *.
     assert (HM1 : Mid st0 R i st1).
     { apply (Mid_after_persist st0 R i e1 HR HInv0).
-      - intros s1 f0 b nl Hin. apply Pb. intros dR HdR. eapply (wp_sets_b sch W); eauto.
-      - intros lf os of_ Hin. apply Pb. intros dR HdR. fold R in HdR. unfold links_of in Hin. rewrite HdR in Hin.
-        eapply (wp_sets_l sch W); eauto. }
+      - intros s1 f0 t b nl Hin Hrt. apply Pb. intros dR HdR. fold R in HdR. eapply (wp_sets_b sch W); [|exact Hin]. rewrite Hrt. exact HdR.
+      - intros s1 lf os of_ Hin Hr1. apply Pb. intros dR HdR. fold R in HdR. eapply (wp_sets_l sch W); [|exact Hin]. rewrite Hr1. exact HdR.
+      - intros s1 Hr1 Hp. unfold present in Hp |- *. rewrite Hr1 in Hp |- *. unfold st1. rewrite get_ent_set_ent, !str_eqb_refl. cbn [andb].
+        destruct (is_child sch s1) eqn:Ec1; [|reflexivity].
+        assert (Hc0 : al_get s1 (e_c e0) <> None).
+        { unfold e0. destruct (get_ent st0 R i) as [ex|]; [|discriminate]. destruct (al_get s1 (e_c ex)); [discriminate | discriminate]. }
+        destruct (str_eq_dec s1 s) as [->|Hne].
+        + destruct (al_get s (e_c e1)) eqn:Eg; [reflexivity | exfalso; exact (Pd Ec1 eq_refl)].
+        + rewrite (Pc s1 Hne). destruct (al_get s1 (e_c e0)); [reflexivity | congruence]. }
     assert (Hg1 : get_ent st1 R i = Some e1) by (unfold st1; rewrite get_ent_set_ent, !str_eqb_refl; reflexivity).
     assert (Hp1 : forall s', s' = R \/ s' = s -> present sch st1 s' i = true).
     { intros s' [-> | ->].
@@ -282,25 +324,41 @@ Section Ops.
     assert (He0 : ent_nobool e0).
     { unfold e0. destruct (get_ent st0 R i) as [e|] eqn:E; [|apply ent_nobool_empty]. destruct HInv0 as [_ HFS]. eapply HFS; eauto. }
     assert (HFS2 : FieldsStr st2).
-    { eapply FieldsStr_fc; [exact Hfc|]. apply FieldsStr_set_ent; [apply HInv0 | apply Pa; exact He0]. }
+    { eapply FieldsStr_fc; [exact Hfc|]. apply FieldsStr_set_ent; [apply HInv0 | apply Pa; [exact He0|]].
+      intros Hcs. destruct create eqn:Ecr.
+      - right. unfold e0. rewrite (Hcre eq_refl). reflexivity.
+      - left. pose proof (Hupd eq_refl) as Hp. unfold present in Hp. fold R in Hp. unfold e0.
+        destruct (get_ent st0 R i) as [ex|]; [|discriminate]. rewrite Hcs in Hp. destruct (al_get s (e_c ex)); [discriminate | discriminate]. }
     apply (Mid_to_Inv st0 R i st2 (map fst (chain sch s)) HInv0 HM2 HFS2 (chain_has_root s) HR).
     - intros s' Hin k Hk. apply in_map_iff in Hin as [[s2 ks2] [<- Hin]]. cbn. eapply HD2; eauto.
-    - intros s1 f nl Hr1 Hin1 Hnin Hp.
-      destruct create eqn:Ecr.
-      { exfalso. apply present_get_ent in Hp. rewrite Hr1 in Hp. apply Hp. apply Hcre. reflexivity. }
+    - intros s1 k f Hr1 Hin1 Hkf Hnin.
       assert (s1 <> R) as HneR by (intros ->; apply Hnin; apply chain_has_root).
       assert (s1 <> s) as Hnes.
       { intros ->. apply Hnin. apply in_map_iff. exists (s, cons_of sch s). split; [reflexivity | apply chain_self]. }
       assert (is_child sch s1 = true) as Hc1 by (apply root_neq_child; congruence).
-      assert (Hg0 : get_ent st0 R i = Some e0).
-      { unfold e0. apply present_get_ent in Hp. rewrite Hr1 in Hp. destruct (get_ent st0 R i); [reflexivity | congruence]. }
-      assert (Hpp : present sch st1 s1 i = present sch st0 s1 i /\ get_field sch st1 s1 i f = get_field sch st0 s1 i f).
-      { unfold present, get_field. rewrite Hr1, Hg1, Hg0, Hc1.
-        destruct (find_store sch s1) as [d1|] eqn:Ef1.
-        - rewrite (wp_uchild sch W s1 d1 f nl Hc1 Ef1 Hin1). cbn [andb]. rewrite (Pc s1 Hnes). split; reflexivity.
-        - unfold is_child in Hc1. rewrite Ef1 in Hc1. discriminate. }
-      destruct Hpp as [P1 P2]. unfold NoTraceInv.fbytes.
-      rewrite (present_fc sch st1 st2 s1 i (Hfc _ _)), (get_field_fc sch st1 st2 s1 i f (Hfc _ _)), P1, P2. split; [exact Hp | reflexivity].
+      destruct (find_store sch s1) as [d1|] eqn:Ef1; [|unfold is_child in Hc1; rewrite Ef1 in Hc1; discriminate].
+      assert (declares_field d1 f = true) as Hdecl.
+      { destruct k; cbn in Hkf; inversion Hkf; subst.
+        - eapply (wp_uchild sch W); eauto.
+        - eapply (wp_fchild sch W s1 d1 _ f Hc1 Ef1 Hin1). reflexivity.
+        - eapply (wp_fchild sch W s1 d1 _ f Hc1 Ef1 Hin1). reflexivity. }
+      (* in st0 the entity (if any) is e0; the child data of s1 is the same in e1 *)
+      assert (Hst0 : present sch st0 s1 i = match al_get s1 (e_c e0) with Some _ => true | None => false end /\
+                     get_field sch st0 s1 i f = match al_get s1 (e_c e0) with
+                                                | Some cd => match al_get f cd with Some v => v | None => FAbsent end
+                                                | None => FAbsent end).
+      { unfold present, get_field. rewrite Hr1, Hc1, Ef1, Hdecl. cbn [andb]. unfold e0.
+        destruct (get_ent st0 R i); split; reflexivity. }
+      assert (Hst1 : present sch st1 s1 i = match al_get s1 (e_c e0) with Some _ => true | None => false end /\
+                     get_field sch st1 s1 i f = match al_get s1 (e_c e0) with
+                                                | Some cd => match al_get f cd with Some v => v | None => FAbsent end
+                                                | None => FAbsent end).
+      { unfold present, get_field. rewrite Hr1, Hg1, Hc1, Ef1, Hdecl. cbn [andb]. rewrite (Pc s1 Hnes). split; reflexivity. }
+      destruct Hst0 as [A0 B0]. destruct Hst1 as [A1 B1].
+      rewrite (present_fc sch st1 st2 s1 i (Hfc _ _)), (get_field_fc sch st1 st2 s1 i f (Hfc _ _)), A0, A1, B0, B1. split; reflexivity.
+    - intros s1 Hr1 Hp1s. destruct (str_eq_dec s1 R) as [->|Hne]; [apply chain_has_root|].
+      assert (is_child sch s1 = true) as Hc1 by (apply root_neq_child; congruence).
+      rewrite (Hexcl s1 Hr1 Hc1 Hp1s). apply in_map_iff. exists (s, cons_of sch s). split; [reflexivity | apply chain_self].
   Qed.
 
   Variable oc : octx.
@@ -320,15 +378,18 @@ Section Ops.
     assert (Habs : get_ent st (root_of sch s0) i = None).
     { rewrite (present_root sch st _ i (wp_root_nochild sch W s0) (wp_roots sch W s0)) in Epr.
       destruct (get_ent st (root_of sch s0) i); [discriminate | reflexivity]. }
-    eapply (write_inv st s0 i true sys (oc_sys oc) fv sv None [] st2 HI); [discriminate | intros _; exact Habs | |].
+    eapply (write_inv st s0 i true sys (oc_sys oc) fv sv None [] st2 HI); [discriminate | intros _; exact Habs | | |].
+    - intros s1 Hr1 _ Hp1. exfalso. apply present_get_ent in Hp1. rewrite Hr1 in Hp1. exact (Hp1 Habs).
     - apply (create_chain_ok st i (oc_sys oc) (root_of sch s0) Habs). intros s' ks Hin. apply (chain_in sch W s0 s' ks Hin).
     - rewrite Habs. exact Eac.
   Qed.
 
   Lemma update_in_inv st evs s0 i fv sv ch st' evs' :
-    Inv st -> update_in sch oc (st, evs) s0 i fv sv ch = Ok (st', evs') -> Inv st'.
+    Inv st ->
+    (is_child sch s0 = false -> forall d, In d (children_of sch s0) -> present sch st (sd_name d) i = false) ->
+    update_in sch oc (st, evs) s0 i fv sv ch = Ok (st', evs') -> Inv st'.
   Proof.
-    intros HI H. unfold update_in in H.
+    intros HI Hnoc H. unfold update_in in H.
     destruct (negb (nonempty i)); [discriminate|].
     destruct (negb (loadable sch st s0 i)); [discriminate|].
     destruct (present sch st s0 i) eqn:Ep0; cbn [negb] in H; [|discriminate].
@@ -336,7 +397,20 @@ Section Ops.
     destruct (before_chain sch st false (oc_sys oc) i (chain sch s0)) as [svs|e] eqn:Ebc; cbn [bind] in H; [|discriminate].
     destruct (after_chain sch _ false (oc_sys oc) i (chain sch s0) svs) as [st2|e] eqn:Eac; cbn [bind] in H; [|discriminate].
     inversion H; subst st' evs'. clear H.
-    eapply (write_inv st s0 i false false (oc_sys oc) fv sv ch svs st2 HI); [intros _; exact Ep0 | discriminate | |].
+    eapply (write_inv st s0 i false false (oc_sys oc) fv sv ch svs st2 HI); [intros _; exact Ep0 | discriminate | | |].
+    - intros s1 Hr1 Hc1 Hp1. destruct (is_child sch s0) eqn:Ec0.
+      + (* both are child stores the entity lives in *)
+        destruct HI as [_ HFS]. unfold present in Ep0, Hp1. rewrite Hr1 in Hp1. rewrite Ec0 in Ep0. rewrite Hc1 in Hp1.
+        destruct (get_ent st (root_of sch s0) i) as [e|] eqn:Ee; [|discriminate].
+        destruct (HFS _ _ _ Ee) as [_ Hone]. apply Hone.
+        * destruct (al_get s1 (e_c e)); [discriminate | discriminate].
+        * destruct (al_get s0 (e_c e)); [discriminate | discriminate].
+      + exfalso. assert (root_of sch s0 = s0) as Hr0.
+        { unfold is_child in Ec0. unfold root_of. destruct (find_store sch s0) as [d0|]; [|reflexivity]. destruct (sd_parent d0); [discriminate | reflexivity]. }
+        rewrite Hr0 in Hr1.
+        assert (s1 <> s0) as Hne by (intros ->; congruence).
+        destruct (child_decl sch s1 s0 Hr1 Hne) as [d [Hd Hdn]]. subst s1.
+        rewrite (Hnoc eq_refl d Hd) in Hp1. discriminate.
     - apply before_chain_ok. exact Ebc.
     - exact Eac.
   Qed.
@@ -345,7 +419,11 @@ Section Ops.
     Inv st -> op_update sch oc (st, evs) s0 i fv sv ch = Ok (st', evs') -> Inv st'.
   Proof.
     intros HI H. unfold op_update in H. destruct (find_store sch s0); [|discriminate].
-    destruct (is_child sch s0); [eapply update_in_inv; eauto|].
-    destruct (find _ (children_of sch s0)); eapply update_in_inv; eauto.
+    destruct (is_child sch s0) eqn:Ec0; [eapply update_in_inv; [exact HI | | exact H]; intros Hc; congruence|].
+    destruct (find _ (children_of sch s0)) as [d|] eqn:Efind.
+    - apply find_some in Efind as [Hd _]. eapply update_in_inv; [exact HI | | exact H].
+      intros Hc. rewrite (wp_children_child sch W s0 d Hd) in Hc. discriminate.
+    - eapply update_in_inv; [exact HI | | exact H]. intros _ d Hd.
+      pose proof (find_none _ _ Efind d Hd) as Hn. cbn [fst] in Hn. exact Hn.
   Qed.
 End Ops.
